@@ -26,7 +26,10 @@ IsLeaf(x)       == x.kind \in {"switch", "reqflag", "arg"}
 BranchLeaves(f) == UNION {RangeOf(f.branches[b].fields) : b \in DOMAIN f.branches}
 NamedMembers(f) == {f.members[m] : m \in {m \in DOMAIN f.members : f.members[m].kind # "pos"}}
 PosMembers(f)   == SelectSeq(f.members, LAMBDA m : m.kind = "pos")
-AdjLeaves(f)    == {f.head} \cup NamedMembers(f)
+\* the first item of an adjacent group is a required flag, or - for an adjacent subcommand - its name
+AdjLeaves(f)    == (IF f.head.kind = "cmd" THEN {} ELSE {f.head}) \cup NamedMembers(f)
+CmdHeadOf(d, w) == {k \in {k \in DOMAIN d.named : d.named[k].kind = "adj"} :
+                       d.named[k].head.kind = "cmd" /\ w \in RangeOf(d.named[k].head.names)}
 FieldLeaves(f)  == IF IsLeaf(f) THEN {f} ELSE IF f.kind = "alt" THEN BranchLeaves(f) ELSE AdjLeaves(f)
 GLeaves(d)      == UNION {FieldLeaves(d.named[k]) : k \in DOMAIN d.named}
 GOwner(d, n)    == {it \in GLeaves(d) : n \in NamesOf(it)}
@@ -83,11 +86,21 @@ GName(d, gs, n, hasv, v) ==
                                     ELSE IF it.adj THEN GKill(s1, "unknown") ELSE [s1 EXCEPT !.pending = it.id])
       ELSE (IF hasv THEN GKill(GAcc(s1, it.id, "U"), "unexpected") ELSE GAcc(s1, it.id, "U"))
 
+\* an adjacent subcommand is looked for when its field is evaluated: items of fields declared after it
+\* are still unclaimed then and, typed in front of the name, hide it; a group that is not repeated is
+\* looked for only once
+CanEnter(d, gs, k) ==
+  /\ \A j \in DOMAIN d.named : j > k => \A it \in FieldLeaves(d.named[j]) : gs.acc[it.id] = <<>>
+  /\ (d.named[k].arity \in {"one", "opt"} => gs.blocks[k] = <<>>)
 GWord(d, gs, w) ==
   IF gs.open.k # 0 /\ Len(gs.open.words) < Len(PosMembers(d.named[gs.open.k]))
   THEN AutoClose(d, [gs EXCEPT !.open.words = Append(@, w)])
-  ELSE LET s1 == Close(d, gs) IN
-       IF d.tail.kind = "pos" THEN [s1 EXCEPT !.pos = Append(@, [w |-> w, after |-> FALSE])]
+  ELSE LET s1 == Close(d, gs)  ks == CmdHeadOf(d, w) IN
+       \* the name of an adjacent subcommand opens a block, provided it is the first item the level has
+       \* not claimed (positional words typed before it are still unclaimed when the command is looked for)
+       IF ks # {} /\ s1.pos = <<>> /\ s1.dead = "" /\ CanEnter(d, s1, CHOOSE k \in ks : TRUE)
+       THEN AutoClose(d, [s1 EXCEPT !.open = [k |-> CHOOSE k \in ks : TRUE, p |-> s1.n, filled |-> <<>>, words |-> <<>>]])
+       ELSE IF d.tail.kind = "pos" THEN [s1 EXCEPT !.pos = Append(@, [w |-> w, after |-> FALSE])]
        ELSE GKill(s1, "unexpected")
 
 GPlain(d, gs, e) ==
@@ -201,7 +214,7 @@ BlockVal(g, b) ==
       PosIx(k) == Cardinality({i \in 1..k : g.members[i].kind = "pos"})
       mv == [k \in DOMAIN g.members |-> MemberV(g.members[k], PosIx(k))] IN
   IF \E k \in DOMAIN mv : ~mv[k].ok THEN [ok |-> FALSE]
-  ELSE [ok |-> TRUE, v |-> [t |-> <<"U">> \o [k \in DOMAIN mv |-> mv[k].v]]]
+  ELSE [ok |-> TRUE, v |-> [t |-> (IF g.head.kind = "cmd" THEN <<>> ELSE <<"U">>) \o [k \in DOMAIN mv |-> mv[k].v]]]
 
 AdjVal(g, B) ==
   LET bv == [i \in DOMAIN B |-> BlockVal(g, B[i])] IN
